@@ -457,9 +457,16 @@ pub fn run_c18_b(ctx: &Ctx) -> Outcome {
                         }
                         _ => {
                             let mut b = Batch::default();
-                            b.append_statement((*ins).clone());
                             b.set_timestamp(ts);
-                            s.batch(&b, (vals,)).await.map(|_| ())
+                            if rng.bool() {
+                                b.append_statement((*ins).clone());
+                                s.batch(&b, (vals,)).await.map(|_| ())
+                            } else {
+                                // an unprepared statement WITH values: the connection prepares it on the fly and rebuilds the batch
+                                b.append_statement((*ins).clone());
+                                b.append_statement(Statement::new(T_INS));
+                                s.batch(&b, (vals.clone(), vals)).await.map(|_| ())
+                            }
                         }
                     };
                 }
